@@ -514,9 +514,9 @@ def run(ctx):
     script_evals = ctx.res.counters.get("evaluations", 0)
     if not getattr(ctx, "parts", None) or "solver" in ctx.parts:
         events = SOLVER_EVENTS_QUICK if q else SOLVER_EVENTS
-        st = bfs(ctx, "solver", run_solver_history, events, max_depth=6 if q else 8)
+        st = bfs(ctx, "solver", run_solver_history, events, max_depth=6 if q else 7)
         # the same search with a non-default option (no model generation: the deferred pop has no reader)
-        st2 = bfs(ctx, "solver-nomodels", run_solver_history_nomodels, events, max_depth=5 if q else 7)
+        st2 = bfs(ctx, "solver-nomodels", run_solver_history_nomodels, events, max_depth=5 if q else 6)
         for k_ in ("states", "transitions", "traces"):
             st[k_] += st2[k_]
         ctx.coverage.update({"states": st["states"], "transitions": st["transitions"],
